@@ -5,12 +5,13 @@ CONSTANTS
   RootSlots <- Slots1
   Realms = {1}
   MaxOps = 4
+  MaxOps1 = 2
   MaxTx = 2
   OwnerFix = TRUE
   AttachGuard = TRUE
   SaveGuard = TRUE
   ObjSeq <- Seq2a
-  Bias = FALSE
+  Bias = TRUE
   Quiet = FALSE
 INIT Init
 NEXT Next
